@@ -24,7 +24,8 @@ RULE = (
     "(a) constants: widths 1..512 x boundary/random values x the three syntaxes (#b, #x, (_ bvN W)) through the real "
     "parse_const_value, the Lean model and the independent printers; malformed constants; "
     "(b) solver outputs: real yices-smt2 (halmos' flags and plain --smt2-model-format) and z3 run on small queries that force "
-    "known values on p_*/halmos_* variables of random widths, with and without an f_evm_ function in the model, plus synthetic "
+    "known values on p_*/halmos_* variables of random widths, with and without an f_evm_ function in the model, the real solve_end_to_end + callback flow with --dump-smt-directory for same-named functions / restarting path ids / a rerun "
+    "into the same directory (every valid model replayed on THIS path's conditions), plus synthetic "
     "outputs (layout/whitespace variants, piped names, short names, duplicates, junk, first-line variants) through the real "
     "from_result / parse_model_str / is_model_valid / _solve_end_to_end_callback vs the Lean model; a case is distinct by its text."
 )
@@ -349,6 +350,56 @@ def correspond(ctx):
                 fctx.solving_ctx.executor.shutdown(wait=False)
             with contextlib.suppress(Exception):
                 fctx.solving_ctx.dump_dir.cleanup()
+
+    # non-default --dump-smt-directory: same-named functions of different contracts and reruns share DIR/<function>/ and path ids
+    # restart at 0.  Real solve_end_to_end + callback per path; every model routed to the valid list must satisfy THIS path's
+    # conditions under the exact EVM operations.
+    scenarios = []
+    if cdir.exists():
+        for f in sorted(cdir.glob("*.json")):
+            d = json.loads(f.read_text())
+            if d.get("kind") == "dumpdir":
+                scenarios.append((f"corpus:{f.stem}", d["scenario"], d.get("options", {})))
+                ctx.count("corpus")
+    for si in range(ctx.scale(3, 30)):
+        scenarios.append((f"rand{si}", K.random_dumpdir_scenario(rng), {}))
+    for si, (scn, scenario, fixed) in enumerate(scenarios):
+        opts = {"cache_solver": si % 2 == 0, "dump_smt_queries": si % 3 == 1,
+                "solver_command": z3bin if si % 2 == 0 else f"{yices} --smt2-model-format --bvconst-in-decimal"}
+        opts.update(fixed)
+        ddir = tmp / f"dumpdir{si}"
+        used = set()
+        with contextlib.redirect_stdout(io.StringIO()), contextlib.redirect_stderr(io.StringIO()):
+            for it in K.dumpdir_flow(eng, scenario, ddir, **opts):
+                fctx, pc, pid = it["fctx"], it["pc"], it["pid"]
+                conds = list(it["path"].conditions)
+                nv, ni = len(fctx.valid_counterexamples), len(fctx.invalid_counterexamples)
+                out = solve_end_to_end(pc)
+                fctx.call_sequences[pid] = ""
+                handler = CounterexampleHandler(ctx=fctx, is_invariant=False, is_probe=False, flamegraph_enabled=False,
+                                                potential_flamegraphs={}, submitted_futures=[])
+                fut = Future()
+                fut.set_result(out)
+                handler._solve_end_to_end_callback(fut, ex=None, path_ctx=pc, description=None)
+                new_valid = fctx.valid_counterexamples[nv:]
+                kind = out.result if isinstance(out.result, str) else str(out.result)
+                collide = out.query_file in used
+                used.add(out.query_file)
+                ctx.case(f"dumpdir|{scn}|{it['contract']}|{pid}|{it['specs']}", nontrivial=collide)
+                ctx.count(f"dumpdir:{'collision' if collide else 'fresh'}:cache={opts['cache_solver']}:{kind}:{'valid' if new_valid else 'not-valid'}")
+                for m in new_valid:
+                    env = {v.full_name: v.value for v in m.model.values()}
+                    try:
+                        holds = all(zeval.Evaluator(env, default_uf=K.prf("c04")).ev(c) for c in conds)
+                    except zeval.Unknown:
+                        holds = None
+                    ctx.count(f"dumpdir-replay:{holds}")
+                    if holds is not True:
+                        ctx.violation("valid-counterexample-does-not-satisfy-path[dump-smt-directory]",
+                                      f"{it['contract']}.{it['function']} path {pid} (query file {FsPath(out.query_file).parent.name}/{FsPath(out.query_file).name}, "
+                                      f"{'re-used name' if collide else 'first use'}): model {({k: hex(v) for k, v in env.items()})} is labelled valid but this path's "
+                                      f"conditions {[str(c)[:60] for c in conds]} evaluate to {holds} under the exact EVM operations",
+                                      {"kind": "dumpdir", "scenario": scenario, "options": fixed})
 
     # synthetic outputs
     def blank():
